@@ -1,4 +1,5 @@
 import Iec.Props.C07
+import Iec.Lemmas.Srv104OneStarted
 /-
 C08 — Redundancy groups: one active connection per group, correct admission.
 
@@ -15,66 +16,25 @@ other used connection of the single group / of the same group is not started and
 `limit_refuses` / `callback_refuses` (admission), `enqueue_all_groups` (fan-out).
 Address texts are modelled for dotted IPv4 and full eight-group IPv6 only ("::"-compressed
 text is outside the model: the C parser leaves octets unwritten for it - recorded in
-DESIGN.md).  **Partial**: the global invariant "at most one started per group after every
-tick" is checked by the harness oracle on every operation, not proved as one theorem.
+DESIGN.md).  The global invariant is proved as one theorem over every history:
+`one_started_per_group` - from a freshly created server, after any sequence of ticks (each = accept + reaping +
+receive / dispatch of every message kind + periodic tasks of every connection), enqueues, stop/start cycles and
+environment events, at most one connection per redundancy group is started (`Lemmas/Srv104Started.lean`: no function
+of the model other than `activate` makes a connection started - relation `Shrink`, some forty frame lemmas, mostly by
+the `shrink_auto` tactic; `Lemmas/Srv104OneStarted.lean`: `inv_activate`, `inv_handleClientConnections`,
+`run_oneStarted`).  The harness oracle checks the same on the real structures after every operation.
 -/
 namespace Iec.Props.C08
 open Iec.Srv104 Iec.Props.C07
 
-/-- every deactivated connection ends not started -/
-theorem deactivate_state (s : Slave) (j : Nat) (hj : j < s.conns.length) : ((deactivate s j).conn j).state = 2 := by
-  unfold deactivate
-  simp only
-  split
-  · rw [conn_setConn _ _ _ (by simpa [emit] using hj)]
-  · rw [conn_setConn _ _ _ hj]
-
-theorem fold_state (js : List Nat) : ∀ (s : Slave) (j : Nat), j ∈ js → (∀ x ∈ js, x < s.conns.length) →
-    ((js.foldl deactivate s).conn j).state = 2 := by
-  induction js with
-  | nil => intro s j h; simp at h
-  | cons x xs ih =>
-    intro s j hj hlen
-    simp only [List.foldl_cons]
-    have hd := deactivate_facts s x
-    by_cases hx : j ∈ xs
-    · exact ih (deactivate s x) j hx (fun y hy => by rw [hd.1]; exact hlen y (by simp [hy]))
-    · have hjx : j = x := by simpa [hx] using hj
-      subst hjx
-      have hf := deactivate_fold xs (deactivate s j) j (fun y hy => by intro h; exact hx (h ▸ hy))
-      rw [hf.2.2.2.2]
-      exact deactivate_state s j (hlen j (by simp))
-
 /-- **one active connection per group**: after `CS104_Slave_activate` on connection i, i is
 started and every other used connection of the same group (all of them in single-group mode)
-is not -/
+is not (proof in `Lemmas/Srv104Activate.lean`) -/
 theorem activate_exclusive (s : Slave) (i : Nat) (hi : i < s.conns.length) (j : Nat) (hj : j < s.conns.length)
     (hne : j ≠ i) (hu : (s.conn j).isUsed = true)
     (hg : s.p.mode = 0 ∨ (s.p.mode = 2 ∧ (s.conn j).group = (s.conn i).group)) :
-    ((activate s i).conn i).state = 1 ∧ ((activate s i).conn j).state = 2 := by
-  unfold activate
-  simp only
-  obtain ⟨js, hjs⟩ : ∃ js, js = (List.range s.conns.length).filter (fun j =>
-      j != i && (s.conn j).isUsed && (s.p.mode = 0 || (s.p.mode = 2 && (s.conn j).group == (s.conn i).group))) := ⟨_, rfl⟩
-  rw [← hjs]
-  have hmem : j ∈ js := by
-    rw [hjs]; simp only [List.mem_filter, List.mem_range, Bool.and_eq_true, bne_iff_ne, Bool.or_eq_true,
-      decide_eq_true_eq, beq_iff_eq]
-    exact ⟨hj, ⟨hne, hu⟩, by rcases hg with h | h; exact Or.inl h; exact Or.inr h⟩
-  have hall : ∀ x ∈ js, x < s.conns.length := by
-    intro x hx; rw [hjs] at hx; simp only [List.mem_filter, List.mem_range] at hx; exact hx.1
-  have hni : ∀ x ∈ js, x ≠ i := by
-    intro x hx; rw [hjs] at hx; simp only [List.mem_filter, Bool.and_eq_true, bne_iff_ne] at hx; exact hx.2.1.1
-  have hf := deactivate_fold js s i hni
-  have ha := activateConn_facts (js.foldl deactivate s) i (by rw [hf.1]; exact hi)
-  refine ⟨by rw [ha.1], ?_⟩
-  -- connection j is untouched by activating i
-  have hj2 : ((activateConn (js.foldl deactivate s) i).conn j) = ((js.foldl deactivate s).conn j) := by
-    unfold activateConn
-    simp only
-    split <;> simp [Slave.conn, Slave.setConn, emit, List.getD_eq_getElem?_getD, List.getElem?_set_ne (Ne.symm hne)]
-  rw [hj2]
-  exact fold_state js s j hmem hall
+    ((activate s i).conn i).state = 1 ∧ ((activate s i).conn j).state = 2 :=
+  Iec.Srv104.activate_exclusive s i hi j hj hne hu hg
 
 /-- admission is refused while the open-connection limit is reached -/
 theorem limit_refuses (s : Slave) (hl : 1 ≤ s.p.maxOpen) (hfull : (s.p.maxOpen : Int) ≤ s.openConnections) :
@@ -112,5 +72,26 @@ theorem enqueue_all_groups (s : Slave) (asdu : List Nat) (g : Nat) (hg : g < s.g
     ((enqueue s asdu).grp g).lowQ = (s.grp g).lowQ.enqueue asdu := by
   unfold enqueue Slave.grp
   simp [List.getD_eq_getElem?_getD, hg]
+
+/-! ### every history -/
+
+/-- **at any time at most one connection per redundancy group is started**: for every configuration, every list of
+groups and every sequence of operations (ticks - i.e. admission, reaping, every received message on every connection,
+timeouts, transmissions -, enqueues, stop/start, socket / clock events), no two distinct used connections of the same
+group (all connections in single-group mode; never any two in connection-is-group mode, where each connection is its
+own group) are both STARTED -/
+theorem one_started_per_group (p : Params) (gs : List (String × List (Bool × List Nat))) (ops : List SOp) :
+    OneStarted (ops.foldl SOp.apply (create p gs)) := run_oneStarted p gs ops
+
+/-- the STARTDT step itself: whatever was started in the group before, afterwards only the activated connection is -/
+theorem startdt_keeps_one_started (s : Slave) (i : Nat) (buf : List Nat) (h : OneStarted s) :
+    OneStarted (handleMessage s i buf).1 := inv_handleMessage s i buf h
+
+/-- the invariant is not vacuous: a state with two started connections in single-group mode violates it -/
+def badParams : Params := { (default : Params) with mode := 0 }
+def badState : Slave := { p := badParams, now := 0, conns := [{ isUsed := true, state := 1 }, { isUsed := true, state := 1 }], groups := [] }
+example : ¬ OneStarted badState := by
+  intro h
+  exact h 0 1 (by decide) rfl rfl rfl rfl (Or.inl rfl)
 
 end Iec.Props.C08
